@@ -1,7 +1,7 @@
 (* C05 -- executable checkers used by harness/c05.py: the model is run on the same inputs as
    the real Executor / execute_sequence / Bridge code and compared with what was observed. *)
 From Coq Require Import List ZArith Bool Arith.
-From EKW Require Import Net.Executor.
+From EKW Require Import Net.Executor Net.Teardown.
 Import ListNotations.
 
 Definition cmsg_eqb (a b : cmsg) : bool :=
@@ -65,6 +65,54 @@ Definition check_exec (c : nat * list nat * list ev * list (list act) * (bool * 
   (* the proved invariants, re-evaluated on this very history *)
   && (if terminating e then no_live_child e else true).
 
+(* ---- stream A, timed part: the teardown observed under a fake clock (harness: FakeTime, timed fake
+   processes).  td = None: the history never reached terminate.  Otherwise: the index of the event
+   whose loop iteration terminated, the epoch of the monotonic clock, every worker as it stood at that
+   moment (exit delay of the busy ones), the join/kill calls with the timeouts the code passed (ms), and
+   the time the teardown took (None = it never came back). *)
+Definition optZ_eqb (a b : option Z) : bool :=
+  match a, b with Some x, Some y => Z.eqb x y | None, None => true | _, _ => false end.
+
+Definition tact_eqb (a b : tact) : bool :=
+  match a, b with
+  | TJoin w t, TJoin w' t' => Nat.eqb w w' && optZ_eqb t t'
+  | TKill w, TKill w' | TJoinDead w, TJoinDead w' => Nat.eqb w w'
+  | _, _ => false
+  end.
+
+Definition cstat_eqb (a b : cstat) : bool :=
+  match a, b with
+  | NotStarted, NotStarted | Alive, Alive | Stuck, Stuck => true
+  | Exited x, Exited y => Z.eqb x y
+  | _, _ => false
+  end.
+
+Definition wstat_eqb (a b : nat * cstat) : bool := Nat.eqb (fst a) (fst b) && cstat_eqb (snd a) (snd b).
+
+Definition tdobs := option (nat * Z * list (nat * tstat) * list tact * option Z).
+
+Definition check_teardown (n : nat) (ns : list nat) (xs : list ev) (td : tdobs) : bool :=
+  match td with
+  | None => negb (terminating (fst (run_steps (init_ns n ns) xs)))
+  | Some (i, mono0, tws, tacts, el) =>
+      let e := fst (run_steps (init_ns n ns) (firstn i xs)) in
+      match nth_error xs i with
+      | None => false
+      | Some x =>
+          negb (terminating e) && terminating (fst (apply_ev e x))
+          (* the timed workers are the ones the untimed model has at that moment *)
+          && list_eqb wstat_eqb (abs_workers tws) (workers e)
+          && (let '(ws', a, r) := reap_t mono0 0 tws in
+              list_eqb tact_eqb a tacts && optZ_eqb r el
+              (* the proved bounds, re-evaluated on this very teardown *)
+              && no_live_worker ws' && match r with Some z => (z <=? grace)%Z | None => false end)
+      end
+  end.
+
+Definition check_exec_t (c : nat * list nat * list ev * list (list act) * (bool * list bool * bool * bool * list nat) * tdobs) : bool :=
+  let '(n, ns, xs, obs, fin, td) := c in
+  check_exec (n, ns, xs, obs, fin) && check_teardown n ns xs td.
+
 (* ---- stream B: entrypoint.execute_sequence *)
 Definition wact_eqb (a b : wact) : bool :=
   match a, b with
@@ -72,9 +120,6 @@ Definition wact_eqb (a b : wact) : bool :=
   | WFlush, WFlush => true
   | _, _ => false
   end.
-
-Definition optZ_eqb (a b : option Z) : bool :=
-  match a, b with Some x, Some y => Z.eqb x y | None, None => true | _, _ => false end.
 
 Definition check_seq (c : list (nat * tbeh) * list wact * option Z) : bool :=
   let '(ts, obs, code) := c in
@@ -109,29 +154,33 @@ Definition check_bridge (c : list nat * list (list bmsg) * (nat * list bmsg * li
    iteration) and on the controller model; the observation must be one the model allows. *)
 Inductive fkind := FNone | FRaise | FWorkerExit | FDs | FShmKill | FShmTerm | FSibling.
 
-Definition scenario_events (k : fkind) : list ev :=
+(* `busy`: another worker of the host is inside a never-ending task when the fault happens *)
+Definition scenario_events (k : fkind) (busy : bool) : list ev :=
+  EvSegment 1 :: (if busy then [EvWorkerStuck 1] else []) ++
   match k with
-  | FNone => [EvSegment 1; EvBatch [MPublished 1] false]
-  | FRaise => [EvSegment 1; EvBatch [MTaskFailure 0 0] false]
-  | FWorkerExit => [EvSegment 1; EvWorkerDies 0 0; EvBatch [] false]
-  | FSibling => [EvSegment 1; EvWorkerDies 1 (-9); EvBatch [] false]
-  | FDs => [EvSegment 1; EvDsDies (-9); EvBatch [] false]
-  | FShmKill => [EvSegment 1; EvShmDies Kill; EvBatch [] false]
-  | FShmTerm => [EvSegment 1; EvShmDies Term; EvBatch [] false]
+  | FNone => [EvBatch [MPublished 1] false]
+  | FRaise => [EvBatch [MTaskFailure 0 0] false; EvBatch [MShutdown] false]   (* the controller's reaction *)
+  | FWorkerExit => [EvWorkerDies 0 0; EvBatch [] false]
+  | FSibling => [EvWorkerDies 1 (-9); EvBatch [] false]
+  | FDs => [EvDsDies (-9); EvBatch [] false]
+  | FShmKill => [EvShmDies Kill; EvBatch [] false]
+  | FShmTerm => [EvShmDies Term; EvBatch [] false]
   end.
 
 (* obs: raised?, processes left, segments left, must_raise (by construction of the scenario the
    requested outputs cannot all be delivered) *)
-Definition check_scenario (c : fkind * (bool * nat * nat * bool)) : bool :=
-  let '(k, (raised, procs, shm_left, must)) := c in
-  let '(e, acts) := run_evs (init 2) (scenario_events k) in
+Definition check_scenario (c : fkind * bool * (bool * nat * nat * bool)) : bool :=
+  let '(k, busy, (raised, procs, shm_left, must)) := c in
+  let '(e, acts) := run_evs (init 2) (scenario_events k busy) in
   let reason := existsb is_shutdown_reason (ctl_msgs 0 acts) in
   let ctl := run 3 [7] [] [0] [ctl_msgs 0 acts ++ (if reason then [] else [BPayload 7 1%Z])] in
   let model_raises := match ctl with Failed _ => true | _ => false end in
   (* the model's verdict on raise/return is binding when the scenario forces it *)
   (if must then raised && model_raises else true)
   && (match k with FNone => negb raised && negb model_raises | _ => true end)
-  (* teardown: the model leaves no live child once terminated, so no process may be left *)
+  (* teardown: the model leaves no live child once terminated (a busy worker is killed after the grace
+     period), so no process may be left *)
   && (if terminating e then no_live_child e else true) && Nat.eqb procs 0
+  && (if busy then match k with FNone => true | _ => existsb (fun a => match a with KillWorker 1 => true | _ => false end) acts end else true)
   (* segments: the model keeps some only when the shm server was SIGKILLed *)
   && (match segs (fst (terminate e)) with [] => Nat.eqb shm_left 0 | _ => true end).
